@@ -115,6 +115,8 @@ func initialStates() []state {
 	// sub-message a = 16385 bytes (3-byte prefix 81 80 01): removing 2 bytes needs a 2-byte prefix again
 	add("nested-len16385", ns, T(fa, S1("i", i32(1), "s", str(strings.Repeat("L", 16380))), fx, i32(1)))
 	add("nested-list-of-messages", ns, T(fra, pbref.ListOf(fra, S1("i", i32(1)), S1("s", str("z")), S1()), ftail, str("t")))
+	// packed lists inside the elements of an unpacked list of messages (two list levels in one path; added after seed C10-11)
+	add("nested-list-of-messages-with-packed-lists", ns, T(fra, pbref.ListOf(fra, S1("pl", ints(pl, 1, 2)), S1("i", i32(4), "pl", ints(pl, 3, 300)), S1("zl", ints(sub1.ByName("zl"), -1, 70000))), ftail, str("t")))
 	add("nested-strmap-of-messages", ns, T(fma, pbref.MapOf(fma).Put(str("k"), S1("i", i32(1), "pl", ints(pl, 1, 2))).Put(str("j"), S1("s", str("v")))))
 	add("nested-intmap-of-messages", ns, T(fmi, pbref.MapOf(fmi).Put(i32(5), S1("s", str("v"), "sm", pbref.MapOf(sm).Put(str("k"), i32(1)))), fx, i32(2)))
 	// map ENTRIES at the 1->2 byte length-prefix boundary that are not the first entry on the wire: entry "k" has a
@@ -438,8 +440,19 @@ func wrap(d *dproto.TypeDescriptor, b []byte) generic.Value {
 }
 
 // execOp runs one operation; returns the resulting bytes.
+// twinChanged: set by execOp when a SECOND root value over the same bytes (created before the operation, never
+// edited itself) no longer holds the bytes it was created from.
+var twinChanged string
+
 func execOp(s *pbref.Schema, d *dproto.TypeDescriptor, in []byte, op pbref.Op) (out []byte, existed bool, err error, pi *core.PanicInfo) {
 	v := wrap(d, in)
+	twin := v // NewRootValue does not copy: both values share the buffer
+	twinChanged = ""
+	defer func() {
+		if tb := twin.Raw(); !bytes.Equal(tb, in) {
+			twinChanged = fmt.Sprintf("%x", tb)
+		}
+	}()
 	pi = core.Catch(func() {
 		switch op.Kind {
 		case pbref.OpSet:
@@ -740,6 +753,10 @@ func (x *search) step(h hist, op pbref.Op) (*pbref.Val, bool) {
 			return nil, false
 		}
 		x.l.add(site+"|"+trig+"|error", "%s: %v; the model gives %s", where, err, want.Short())
+		return nil, false
+	}
+	if twinChanged != "" {
+		x.l.add(site+"|"+trig+"|other-root-value-changed", "%s: a second root value created over the same bytes before the operation (and never edited) now holds %s", where, twinChanged)
 		return nil, false
 	}
 	back, derr := x.st.s.Decode(out, x.st.s.Root)
